@@ -532,7 +532,9 @@ int vnadata_convert(const vnadata_t *vdp_in, vnadata_t *vdp_out,
 	    return -1;
 	}
 	vnadata_set_frequency_vector(vdp_out, vdp_in->vd_frequency_vector);
-	if (!(vdip_in->vdi_flags & VF_PER_F_Z0)) {
+	if (vdp_in->vd_rows == 0 && vdp_in->vd_columns == 0) {
+	    /* no ports: no impedances to transfer */
+	} else if (!(vdip_in->vdi_flags & VF_PER_F_Z0)) {
 	    if (vnadata_set_z0_vector(vdp_out, vdip_in->vdi_z0_vector) == -1) {
 		return -1;
 	    }
@@ -675,6 +677,14 @@ int vnadata_convert(const vnadata_t *vdp_in, vnadata_t *vdp_out,
 	    vdp_out->vd_columns = vdp_out->vd_rows;
 	}
 	vdp_out->vd_rows = 1;
+
+	/*
+	 * A 1 x 0 vector still counts as having one port: make sure
+	 * the z0 vector covers it.
+	 */
+	if (_vnadata_extend_p(vdip_in, 1) == -1) {
+	    return -1;
+	}
 
 	/*
 	 * Zero the vacated cells to maintain the invariant that cells
